@@ -108,3 +108,42 @@ class FA:
 
     def site(self, node=None):
         return self.func.site(node)
+
+
+def expand(expr, fa, depth=4):
+    """A copy of expr in which every name that has exactly one reaching plain definition is replaced by that definition (recursively):
+    `found = key in table; if found:` reads as `if key in table:`.  The copy is not part of the analysed tree; use it for matching only."""
+    from .astutil import clone
+
+    def rec(e, d):
+        if d <= 0:
+            return e
+        if isinstance(e, ast.Name) and isinstance(e.ctx, ast.Load):
+            v = fa.resolve(e)
+            if v is not None and not isinstance(v, (ast.Call,)) or (v is not None and isinstance(v, ast.Call) and isinstance(v.func, ast.Attribute)
+                                                                 and v.func.attr in ('upper', 'lower', 'strip')):
+                return rec(v, d - 1)
+            return e
+        out = clone(e) if d == depth else e
+        for fld, val in ast.iter_fields(e):
+            if isinstance(val, ast.AST):
+                new = rec(val, d)
+                if new is not val:
+                    if out is e:
+                        out = clone(e)
+                    setattr(out, fld, new)
+            elif isinstance(val, list):
+                lst = None
+                for i, x in enumerate(val):
+                    if isinstance(x, ast.AST):
+                        new = rec(x, d)
+                        if new is not x:
+                            if lst is None:
+                                lst = list(val)
+                            lst[i] = new
+                if lst is not None:
+                    if out is e:
+                        out = clone(e)
+                    setattr(out, fld, lst)
+        return out
+    return rec(expr, depth)
